@@ -6,6 +6,8 @@ package main
 //   vm/vm.go eval                       the statements of the MakeCell, LoadFree, StoreFree arms
 //   vm/vm.go callFunction               what is placed in the slot after the parameters of a named function
 //   vm/frame.go CaptureLocals           the statements (heap copy shared by the frame and its cells)
+//   compiler/symbol_table.go claimIndex, NewBlock; compiler.go compileBlock   block tables claim their
+//                                       indexes from the function table and never hand them back
 
 import (
 	"bytes"
@@ -151,6 +153,33 @@ func c02_genC02(repo string) string {
 		cl = append(cl, c02Print(fset, st))
 	}
 	sb.WriteString(c02LeanList("captureLocals", "frame.CaptureLocals", cl))
+
+	// block tables: claimIndex (where a block's variables get their index and that nothing is
+	// ever handed back), NewBlock, and how compileBlock leaves its table
+	fset, fd = c02Func(repo, "compiler/symbol_table.go", "claimIndex")
+	var ci []string
+	for _, st := range fd.Body.List {
+		ci = append(ci, c02Print(fset, st))
+	}
+	sb.WriteString(c02LeanList("claimIndex", "SymbolTable.claimIndex", ci))
+	fset, fd = c02Func(repo, "compiler/symbol_table.go", "NewBlock")
+	var nb []string
+	for _, st := range fd.Body.List {
+		nb = append(nb, c02Print(fset, st))
+	}
+	sb.WriteString(c02LeanList("newBlock", "SymbolTable.NewBlock", nb))
+	fset, fd = c02Func(repo, "compiler/compiler.go", "compileBlock")
+	var cb []string
+	ast.Inspect(fd, func(n ast.Node) bool {
+		if as, ok := n.(*ast.AssignStmt); ok && len(as.Lhs) == 1 && c02Print(fset, as.Lhs[0]) == "code.symbols" {
+			cb = append(cb, c02Print(fset, as))
+		}
+		return true
+	})
+	if len(cb) == 0 {
+		panic("compileBlock: the block table is not entered / left as expected")
+	}
+	sb.WriteString(c02LeanList("compileBlockTables", "compileBlock: entering and leaving the block table", cb))
 	sb.WriteString("end Risor.Generated.C02\n")
 	return sb.String()
 }
